@@ -211,3 +211,28 @@ func resolvePaths(visited []interface{}, all []*astser.Node) []string {
 func renderWalk(wf bool, res string, size int, visited []interface{}, all []*astser.Node) string {
 	return fmt.Sprintf("wf=%v res=%s size=%d visited=%s", wf, res, size, strings.Join(resolvePaths(visited, all), " "))
 }
+
+// long flat lists and long chains: a node's position among its siblings must not matter
+func init() {
+	rep := func(n int, f func(i int) string, sep string) string {
+		xs := make([]string, n)
+		for i := range xs {
+			xs[i] = f(i)
+		}
+		return strings.Join(xs, sep)
+	}
+	num := func(i int) string { return fmt.Sprint(i) }
+	walkCorpus = append(walkCorpus,
+		rep(1200, func(i int) string { return fmt.Sprintf("x = %d", i) }, "\n"),
+		"a = ["+rep(1200, num, ", ")+"]",
+		"f("+rep(1100, num, ", ")+")",
+		"x = "+rep(700, num, " + "),
+		"m = {"+rep(1100, func(i int) string { return fmt.Sprintf("%d: %d", i, i) }, ", ")+"}",
+		"if true {\n"+rep(1100, func(i int) string { return fmt.Sprintf("g(%d)", i) }, "\n")+"\n}",
+		"switch x {\n"+rep(1050, func(i int) string { return fmt.Sprintf("case %d:\ny = %d", i, i) }, "\n")+"\n}",
+		"func h("+rep(1050, func(i int) string { return fmt.Sprintf("p%d", i) }, ", ")+") { return p0 }",
+		"x = "+strings.Repeat("(", 300)+"1"+strings.Repeat(")", 300),
+		"x = "+strings.Repeat("[", 300)+"1"+strings.Repeat("]", 300),
+		"a, b = "+rep(1100, num, ", "),
+	)
+}
